@@ -303,6 +303,9 @@ func allPrefixed(states []string, prefix string) bool {
 
 // c20GiveUp is set when a run hit the wall-clock watchdog or too many runs ended in a wait-for cycle:
 // the remaining cases of the shard are skipped (the verdict is already violated or inconclusive).
+// typedAttrRe finds the values of attributes the Uniprot schema types as dates or numbers.
+var typedAttrRe = regexp.MustCompile(`(?:created|modified|version|length|mass|id)="([^"]+)"`)
+
 // c20DamageInTag is set by the corruption workload when the damaged byte lies between a '<' and its '>'.
 var c20DamageInTag bool
 
@@ -744,23 +747,39 @@ func runC20(w *mon.W) {
 		_, doc := randUniprotDoc(r, 1+r.Intn(6), r.Intn(2) == 0)
 		gzb := gzipBytes([]byte(doc))
 		cut := 10 + r.Intn(len(gzb)-10)
-		// what the harness's own gzip reader can still produce
+		damaged := gzb[:cut]
+		switch k % 4 {
+		case 1: // inside the 8-byte trailer (CRC-32 + length): the whole document inflates, the stream is still damaged
+			cut = len(gzb) - 1 - r.Intn(8)
+			damaged = gzb[:cut]
+			w.Add("gzip_trailer_truncations", 1)
+		case 2: // a flipped bit in the trailer: complete XML, wrong checksum or length
+			damaged = append([]byte(nil), gzb...)
+			cut = len(gzb) - 1 - r.Intn(8)
+			damaged[cut] ^= 1 << uint(r.Intn(8))
+			w.Add("gzip_trailer_bit_flips", 1)
+		}
+		// what the harness's own gzip reader can still produce, and that it does report the damage
 		var plain []byte
-		if zr, err := gzip.NewReader(bytes.NewReader(gzb[:cut])); err == nil {
-			plain, _ = io.ReadAll(zr)
+		if zr, err := gzip.NewReader(bytes.NewReader(damaged)); err == nil {
+			var rerr error
+			plain, rerr = io.ReadAll(zr)
+			if rerr == nil {
+				continue // not damaged after all (cannot happen for a cut; a flip always breaks CRC or length)
+			}
 		} else {
 			continue
 		}
-		w.Begin(id, fmt.Sprintf("gzip of %d bytes cut at %d; %d plain bytes recoverable", len(gzb), cut, len(plain)))
+		w.Begin(id, fmt.Sprintf("gzip of %d bytes damaged at %d; %d plain bytes recoverable", len(gzb), cut, len(plain)))
 		path := filepath.Join(tmp, "t.xml.gz")
-		os.WriteFile(path, gzb[:cut], 0644)
+		os.WriteFile(path, damaged, 0644)
 		entries, errs, err := uniprot.Read(path)
 		if err == nil {
 			var res c20Result
 			res = superviseUniprotRead(entries, errs, make(chan string, 1), len(doc), &res)
 			w.Add("gzip_truncations", 1)
 			w.Add("sequential_consumer_runs", 1)
-			w.Eval(true, mon.Hash64(string(gzb[:cut]), "Read"))
+			w.Eval(true, mon.Hash64(string(damaged), "Read"))
 			// the expected prefix is judged on the plain bytes the harness could recover; the stream is damaged for sure
 			c20JudgeGz(w, id, plain, res, cut, len(gzb))
 		}
@@ -768,7 +787,7 @@ func runC20(w *mon.W) {
 	}
 
 	// ---- corruptions of larger documents
-	nCor := w.Pick(300, 20000)
+	nCor := w.Pick(600, 20000)
 	for k := 0; k < nCor; k++ {
 		id := fmt.Sprintf("corrupt-%d", k)
 		idx++
@@ -780,10 +799,31 @@ func runC20(w *mon.W) {
 		b := []byte(doc)
 		first := strings.Index(doc, "<entry")
 		last := strings.LastIndex(doc, "</entry>") + len("</entry>")
-		kind := r.Intn(5)
+		kind := r.Intn(6)
 		what := ""
 		pos := first + r.Intn(last-first)
 		switch kind {
+		case 5: // damage inside a typed attribute value (a date, a number): first, last or inner character
+			var spots []int
+			for _, m := range typedAttrRe.FindAllStringSubmatchIndex(doc[first:last], -1) {
+				spots = append(spots, first+m[2], first+m[3]-1, first+m[2]+(m[3]-m[2])/2)
+			}
+			if len(spots) == 0 {
+				continue
+			}
+			pos = spots[r.Intn(len(spots))]
+			if r.Intn(2) == 0 {
+				pos = spots[3*r.Intn(len(spots)/3)+1] // the last character of a value
+			}
+			nb := " \tx0-9:"[r.Intn(7)]
+			if r.Intn(2) == 0 {
+				nb = " \t\n"[r.Intn(3)]
+			}
+			if b[pos] == nb {
+				nb = ' '
+			}
+			what = fmt.Sprintf("byte %q at %d (inside a date or number attribute) replaced by %q", b[pos], pos, nb)
+			b[pos] = nb
 		case 0: // delete a '<' or '>'
 			for tries := 0; tries < 200 && b[pos] != '<' && b[pos] != '>'; tries++ {
 				pos = first + r.Intn(last-first)
@@ -807,15 +847,19 @@ func runC20(w *mon.W) {
 				pos = first + r.Intn(last-first)
 				lt, gt := strings.LastIndex(doc[:pos], "<"), strings.LastIndex(doc[:pos], ">")
 				inTag := lt > gt
-				if inTag && strings.Count(doc[lt:pos], "\"")%2 == 1 {
-					continue // inside an attribute value
-				}
-				if inTag && strings.ContainsAny(doc[lt:pos], " \n") {
-					continue // attribute names / values region
+				if k%3 != 0 {
+					// two thirds of the flips keep away from attributes; the rest may hit names and values (the document
+					// then often stays well-formed; only the entries before the damage are compared, see c20DamageInTag)
+					if inTag && strings.Count(doc[lt:pos], "\"")%2 == 1 {
+						continue // inside an attribute value
+					}
+					if inTag && strings.ContainsAny(doc[lt:pos], " \n") {
+						continue // attribute names / values region
+					}
 				}
 				break
 			}
-			const repl = " abcXYZ<>&/\x00\xff"
+			const repl = " abcXYZ<>&/\x00\xff 19-\t"
 			nb := repl[r.Intn(len(repl))]
 			what = fmt.Sprintf("byte %q at %d replaced by %q", b[pos], pos, nb)
 			b[pos] = nb
@@ -831,7 +875,7 @@ func runC20(w *mon.W) {
 		}
 		c20DamageInTag = false
 		w.Add("corruptions", 1)
-		w.SetAdd("corruption_kinds", []string{"delete angle bracket", "insert angle bracket", "rename close tag", "flip byte", "flip byte"}[kind])
+		w.SetAdd("corruption_kinds", []string{"delete angle bracket", "insert angle bracket", "rename close tag", "flip byte", "flip byte", "damage a typed attribute"}[kind])
 		w.End()
 	}
 }
